@@ -276,4 +276,10 @@ def rule_simplification_order_shared(ctx):
     ctx.obls.extend(sub.obls)
 
 
-RULES = [rule_break, rule_decompose, rule_flag_reads, rule_simplify_shared, rule_relation_tables_shared, rule_simplification_order_shared]
+def rule_cli_flags(ctx):
+    """the flags whose settings are compared are plain presence flags: none of them is switched on or off by another option"""
+    from .. import collect as _collect
+    _collect.check_cli_flags(ctx, "CLI", ctx.facts, ["no_simplify", "no_eq_break"])
+
+
+RULES = [rule_break, rule_decompose, rule_flag_reads, rule_simplify_shared, rule_relation_tables_shared, rule_simplification_order_shared, rule_cli_flags]
